@@ -1,6 +1,8 @@
 package main
 
 import (
+	"fmt"
+	"go/token"
 	"regexp"
 	"strings"
 
@@ -34,6 +36,7 @@ var orderExceptions = map[string]string{
 
 func checkC10(c *Ctx) {
 	c14RangeTracks(c) // the loader partitions the tokens by the ranges of the native syntax nodes
+	c10LexOrigin(c)
 	c.Rule("R1 linear: in every function of hclwrite/parser.go every inputTokens value (parameter, result of a Partition*/parse* call, phi) is consumed exactly once on every path from its definition to a return: by .Tokens(), by being passed to another loader function, or by being returned; a PartitionTypeOk call consumes its receiver only on the ok edge; no partition result is discarded")
 	c.Rule("R2 order: on every path, the appends to one children list (AppendUnstructuredTokens/AppendNode/Append/appendItemNode) follow source order, where the position of a value is its path in the partition tree (results of one Partition*/parse* call are ordered by result index; parameters by the result indices at their call sites)")
 	c.Rule("R3 tiling: every Partition* helper that slices its receiver starts the first part at 0, starts each next part where the previous one ends, and ends the last part at len(it.nativeTokens)")
@@ -112,4 +115,48 @@ func checkC10(c *Ctx) {
 	c.Floor("order appends", nAppends, 30, "append calls in the loader")
 	c.NotCovered("that the ranges recorded by hclsyntax align with token boundaries (value-level; e.g. a node range that stops short leaves tokens to the 'stragglers')")
 	c.NotCovered("byte equality with the formatter's output; exposure of every attribute/block/variable through the API")
+}
+
+// R5 lex.origin: the loader parses and lexes the same bytes from the same origin.
+func c10LexOrigin(c *Ctx) {
+	c.Rule("R5 lex.origin: in hclwrite.parse the calls hclsyntax.ParseConfig and hclsyntax.LexConfig receive the same three arguments (source, file name, start position): tokens are matched to syntax nodes by absolute byte offset, so both must count from the same origin")
+	fn := c.P.LookupFunc("hclwrite", "parse")
+	pc := c.P.LookupFunc("hclsyntax", "ParseConfig")
+	lc := c.P.LookupFunc("hclsyntax", "LexConfig")
+	if fn == nil || pc == nil || lc == nil {
+		c.CheckerFail("lex.origin", "anchor hclwrite.parse / hclsyntax.ParseConfig / LexConfig does not resolve")
+		return
+	}
+	c.Fn(FuncName(fn))
+	var pcall, lcall *ssa.Call
+	for _, b := range fn.Blocks {
+		for _, ins := range b.Instrs {
+			if call, ok := ins.(*ssa.Call); ok {
+				switch call.Call.StaticCallee() {
+				case pc:
+					pcall = call
+				case lc:
+					lcall = call
+				}
+			}
+		}
+	}
+	if pcall == nil || lcall == nil {
+		c.Undecided("lex.origin", FuncName(fn)+":calls", fn.Pos(), "hclwrite.parse does not call both ParseConfig and LexConfig directly")
+		return
+	}
+	same := func(a, b ssa.Value) bool {
+		if a == b {
+			return true
+		}
+		ua, ok1 := a.(*ssa.UnOp)
+		ub, ok2 := b.(*ssa.UnOp)
+		return ok1 && ok2 && ua.Op == token.MUL && ub.Op == token.MUL && sameAddr(ua.X, ub.X)
+	}
+	names := []string{"source", "file name", "start position"}
+	for i := 0; i < 3 && i < len(pcall.Call.Args) && i < len(lcall.Call.Args); i++ {
+		c.Sites++
+		c.Check(same(pcall.Call.Args[i], lcall.Call.Args[i]), "lex.origin", fmt.Sprintf("%s:arg[%d]", FuncName(fn), i), lcall.Pos(), "same "+names[i],
+			"ParseConfig and LexConfig are given different values for the "+names[i]+": byte offsets of the tokens and of the syntax nodes no longer refer to the same origin, and the partition of tokens by node ranges loses or misplaces tokens")
+	}
 }
